@@ -30,6 +30,14 @@ def run(ctx):
         "Redact() on an event already flagged redacted is a no-op in the library: whether an `unsigned` added since is "
         "stripped is not compared (neither C03 nor C04 speaks about it)",
         "a create event of a domainless room version reports no auth events whatever its auth_events lists",
+        "boundary / multiplicity variants of the proto-event: prev / auth lists absent (not merely empty), depth 0 and 2^53-1, "
+        "unsigned {} , origin_server_ts 0, the same event cited twice in prev_events and in auth_events, state key = sender; "
+        "content values in valid but unusual spellings (escaped solidus, \\u escapes incl. U+2028 and a surrogate pair, HTML "
+        "characters, an object with white space and unsorted nested keys)",
+        "every headered step also goes through NewEventFromTrustedJSONWithEventID; after every call the object the call was "
+        "made on must still be an event of the same identity; every third behaviour is repeated on a fresh event without "
+        "reading any accessor between the calls (cold caches); IRoomVersion.NewEventBuilder() filled by hand must build the "
+        "same event as NewEventBuilderFromProtoEvent",
         "numbers that are not canonical integers (1.5, 1e3, 1E2, +-2^53, -0, 2.0, a fraction nested in an array) appear "
         "only in the `num` family, as one content value: in room versions 6+ the specification has Build refuse the "
         "proto-event (a refusal is accepted; an event handed out instead must satisfy every clause, i.e. re-parse on "
